@@ -138,7 +138,7 @@ def env_step_oracle(rep, scenario, state, act, fake_rand, draws):
     return {"clause_failures": bad}
 
 
-def _add_actions(scenario, sc):
+def _add_actions(scenario, sc, variant=0):
     """exploit / escalation tables for the environment-level oracles, including two definitions of the same
     (service, os) and (process, os) pair (valid: the first definition is the one the parameterised space decodes to)"""
     import nasim.scenarios.utils as u
@@ -150,6 +150,10 @@ def _add_actions(scenario, sc):
     scenario.scenario_dict[u.PRIVESCS] = {
         "p_a": {u.PRIVESC_PROCESS: procn[0], u.PRIVESC_OS: None, u.PRIVESC_PROB: 1.0, u.PRIVESC_COST: 1, u.PRIVESC_ACCESS: 2},
         "p_b": {u.PRIVESC_PROCESS: procn[0], u.PRIVESC_OS: None, u.PRIVESC_PROB: 0.5, u.PRIVESC_COST: 2, u.PRIVESC_ACCESS: 2}}
+    if variant == 1:
+        # the only ROOT-granting exploit is a LATER definition of an already defined (service, os) pair: it is in the flat
+        # action list but not in exploit_map (which keeps the first definition of a pair)
+        scenario.scenario_dict[u.EXPLOITS]["e_b"][u.EXPLOIT_ACCESS] = 1
     scenario._e_map = None
     scenario._pe_map = None
     return 3, 2
@@ -164,7 +168,7 @@ def env_action_mask_oracle(rep, scenario, state):
     import nasim.scenarios.utils as u
     sc = rep["scenario"]
     osn, srvn, procn = names(sc)
-    n_e, n_p = _add_actions(scenario, sc)
+    n_e, n_p = _add_actions(scenario, sc, rep.get("actions_variant", 0))
     env = NASimEnv(scenario, fully_obs=False, flat_actions=True, flat_obs=True)
     from nasim.envs.host_vector import HostVector
     HostVector.reset()
@@ -202,7 +206,7 @@ def action_decode_oracle(rep, scenario):
     from nasim.envs.action import ParameterisedActionSpace, FlatActionSpace, load_action_list
     sc = rep["scenario"]
     osn, srvn, procn = names(sc)
-    _add_actions(scenario, sc)
+    _add_actions(scenario, sc, rep.get("actions_variant", 0))
     import nasim.scenarios.utils as u
     E, P = scenario.scenario_dict[u.EXPLOITS], scenario.scenario_dict[u.PRIVESCS]
     bad = []
@@ -261,6 +265,32 @@ def action_decode_oracle(rep, scenario):
     ref = load_action_list(scenario)
     if flat.n != len(ref):
         bad.append(f"C11.flat-size: n={flat.n} but load_action_list has {len(ref)} entries")
+    # the documented enumeration, computed from the scenario description (not through the code): per host, in host order,
+    # the four scans, every exploit, every escalation - in definition order
+    addrs_ = [tuple(a) for a in sc["addrs"]]
+    K = 4 + len(E) + len(P)
+    if flat.n != len(addrs_) * K:
+        bad.append(f"C11.flat-size-is-advertised: n={flat.n} for {len(addrs_)} hosts x (4 scans + {len(E)} exploits + {len(P)} escalations)")
+
+    def documented(k):
+        h, j = divmod(k, K)
+        tgt = addrs_[h]
+        if j < 4:
+            return (["ServiceScan", "OSScan", "SubnetScan", "ProcessScan"][j], tgt, 1.0, None)
+        if j < 4 + len(E):
+            d = list(E.values())[j - 4]
+            return ("Exploit", tgt, float(d[u.EXPLOIT_COST]), (d[u.EXPLOIT_SERVICE], d[u.EXPLOIT_OS], float(d[u.EXPLOIT_PROB]),
+                                                              int(d[u.EXPLOIT_ACCESS])))
+        d = list(P.values())[j - 4 - len(E)]
+        return ("PrivilegeEscalation", tgt, float(d[u.PRIVESC_COST]), (d[u.PRIVESC_PROCESS], d[u.PRIVESC_OS],
+                                                                       float(d[u.PRIVESC_PROB]), int(d[u.PRIVESC_ACCESS])))
+    for k in sorted({0, K - 1, K, min(flat.n, len(addrs_) * K) - 1} | {rng.randrange(len(addrs_) * K) for _ in range(4)}):
+        if 0 <= k < min(flat.n, len(ref)):
+            try:
+                if describe(flat.get_action(k)) != documented(k):
+                    bad.append(f"C11.flat-enumeration: index {k} holds {describe(flat.get_action(k))}, documented {documented(k)}")
+            except Exception as e:
+                bad.append(f"C10.flat-index-accepted: {k}: {type(e).__name__}")
     for _ in range(6):
         k = rng.randrange(min(flat.n, len(ref)))
         for idx in (k, np.int64(k), np.int32(k)):
@@ -428,7 +458,7 @@ def scalar_oracle(rep, scenario, net, state):
     # sensitive values as the scenario would hold them: the host's value
     sval = {a: float(sc["hval"][addrs.index(a)]) for a in sens}
     scenario.scenario_dict[u.SENSITIVE_HOSTS] = dict(sval)
-    n_e, n_p = _add_actions(scenario, sc)
+    n_e, n_p = _add_actions(scenario, sc, rep.get("actions_variant", 0))
     from nasim.envs.network import Network
     net = Network(scenario)
     bad = []
@@ -530,6 +560,24 @@ def run(rep):
                 nxt, res = net._perform_subnet_scan(state, act)
                 actual["next_tensor"] = nxt.tensor.tolist()
                 actual["result"] = result_dict(res)
+                # history frame on the SAME network object: a second scan (other source host, fully compromised copy of
+                # the state) must not change what the first scan returned
+                first = (dict(res.discovered), dict(res.newly_discovered), bool(res.success), float(res.value))
+                try:
+                    from nasim.envs.state import State
+                    from nasim.envs.action import SubnetScan
+                    T2 = np.array(rep["tensor"], dtype=np.float32)
+                    c0 = sc["bounds"][0] + sc["bounds"][1]
+                    T2[:, c0] = 1.0; T2[:, c0 + 1] = 1.0; T2[:, c0 + 2] = 0.0; T2[:, c0 + 5] = 2.0
+                    for other in sc["addrs"]:
+                        if tuple(other) != tuple(act.target):
+                            T2[[tuple(a) for a in sc["addrs"]].index(tuple(other)), c0 + 2] = 1.0
+                            net._perform_subnet_scan(State(T2, scenario.host_num_map), SubnetScan(tuple(other), 1.0))
+                            break
+                except Exception:
+                    pass
+                if first != (dict(res.discovered), dict(res.newly_discovered), bool(res.success), float(res.value)):
+                    actual["earlier_result_modified_same_object"] = True
             elif h == "net_reset":
                 nxt = net.reset(state)
                 actual["next_tensor"] = nxt.tensor.tolist()
@@ -628,7 +676,8 @@ if __name__ == "__main__" and len(sys.argv) > 2 and sys.argv[1] == "--batch-actu
         try:
             a = run(rep)["actual"]
             live = a.pop("__live__", [])
-            a["earlier_result_modified"] = any(not _np.array_equal(x, snap) for x, snap in kept)
+            a["earlier_result_modified"] = any(not _np.array_equal(x, snap) for x, snap in kept) or \
+                bool(a.pop("earlier_result_modified_same_object", False))
             if a["earlier_result_modified"]:
                 kept = []
             kept = (kept + [(x, _np.array(x, copy=True)) for x in live])[-4:]
